@@ -332,7 +332,14 @@ pub fn nothing_to_wait_for(scn: &Scenario) -> bool {
         };
         nd.iter().all(|&x| x != 0 && (x as usize) < s.n() && !s.unused[x as usize] && s.is_free(x) && seen.insert(x))
     });
-    embedded && !removes && spares_ok && scn.pre.is_empty()
+    // the insertion and triangulation kernels are not anchor-aware (they link, they do not sew):
+    // the cells they create have no anchors, and `collapse_edge` waits for anchors that are
+    // not there yet — by design, like for coordinates
+    let anchors = crate::attrs::mask_kinds(s.kinds).into_iter().any(crate::attrs::kind_is_anchor);
+    let unanchored_cells = scn.threads.iter().flatten().flat_map(|t| t.ops.iter()).any(|o| {
+        matches!(o, Op::InsertVertex { .. } | Op::InsertVertices { .. } | Op::Fan { .. } | Op::FanConvex { .. } | Op::EarclipCcw { .. } | Op::EarclipCw { .. } | Op::Sew { .. } | Op::Unsew { .. } | Op::WriteA { .. } | Op::WriteACell { .. })
+    });
+    embedded && !removes && spares_ok && scn.pre.is_empty() && !(anchors && unanchored_cells)
 }
 
 /// A serial order is an interleaving like any other. Looks for one in which every other thread
